@@ -66,7 +66,7 @@ def to_sx(e):
     if h in UNARY:
         return '(%s %s)' % (h, to_sx(e[1]))
     if h in NPARAM:
-        return '(%s %s %d)' % (h, to_sx(e[1]), e[2])
+        return '(%s %s %s)' % (h, to_sx(e[1]), int_sx(e[2]))
     if h in BPARAM:
         return '(%s %s %s)' % (h, to_sx(e[1]), num_sx(e[2]))
     raise ValueError('head ' + str(h))
@@ -122,7 +122,7 @@ def parse_expr(ts, k=0):
         e = (h, a)
     elif h in NPARAM:
         a, k = parse_expr(ts, k)
-        e = (h, a, int(ts[k]))
+        e = (h, a, int(ts[k], 0))
         k += 1
     elif h in BPARAM:
         a, k = parse_expr(ts, k)
@@ -220,3 +220,46 @@ def heads(e):
 
 def is_finite_num(x):
     return isinstance(x, int) or (isinstance(x, float) and math.isfinite(x))
+
+
+# ---------- the termination measure of proofs/Termination.v, for traces of the implementation
+def mu(e):
+    """(#Power, #{Power,NthPow,NthRoot,Exp,Log}, sum of n over NthPow/NthRoot, W)"""
+    g1 = g2 = g3 = 0
+    for s in subterms(e):
+        h = s[0]
+        if h == 'Power':
+            g1 += 1
+        if h in ('Power', 'NthPow', 'NthRoot', 'Exp', 'Log'):
+            g2 += 1
+        if h in ('NthPow', 'NthRoot'):
+            g3 += s[2]
+    return (g1, g2, g3, weight(e))
+
+
+def weight(e):
+    h = e[0]
+    if h in ('C', 'V'):
+        return 1
+    if h == 'Add':
+        return sum(weight(a) for a in e[1]) + 3 * len(e[1]) + 2
+    if h == 'Mul':
+        return sum(weight(a) for a in e[1]) + 2 * len(e[1]) + 2
+    if h == 'Minus':
+        return weight(e[1]) + 2 * weight(e[2]) + 12
+    if h == 'Divide':
+        return weight(e[1]) + 3 * weight(e[2]) + 8
+    if h == 'Power':
+        return weight(e[1]) ** 2 * weight(e[2]) ** 2 + 1
+    a = weight(e[1])
+    if h == 'Neg':
+        return 2 * a + 3
+    if h == 'Recip':
+        return 3 * a + 1
+    if h == 'NthPow':
+        return 4 * a + 1
+    if h in ('NthRoot', 'Log', 'Sin', 'Cos'):
+        return 2 * a
+    if h == 'Exp':
+        return a * a + 1
+    raise ValueError(h)
